@@ -19,6 +19,7 @@ type histState struct {
 	events    []*revocation.Event
 	witnesses map[string]*revocation.Witness
 	updates   map[string]*revocation.Update
+	chunks    map[string]*revocation.EventList // decoded single-event chunks kept by a client
 }
 
 func copySacc(s *revocation.SignedAccumulator) *revocation.SignedAccumulator {
@@ -36,7 +37,7 @@ func runHistoryGo(kp *KeyPair, nu0 *big.Int, time0 int64, steps []any) string {
 	initial := &revocation.Event{Index: 0, E: bi(1), ParentHash: revocation.Hash(emptyhash)}
 	acc := &revocation.Accumulator{Index: 0, Nu: nu0, Time: time0, EventHash: initial.VerifHash()}
 	h := &histState{kp: kp, acc: acc, accs: []*revocation.Accumulator{acc}, events: []*revocation.Event{initial},
-		witnesses: map[string]*revocation.Witness{}, updates: map[string]*revocation.Update{}}
+		witnesses: map[string]*revocation.Witness{}, updates: map[string]*revocation.Update{}, chunks: map[string]*revocation.EventList{}}
 	var out, us []string
 	for _, s := range steps {
 		st := Op(s.(map[string]any))
@@ -79,6 +80,17 @@ func runHistoryGo(kp *KeyPair, nu0 *big.Int, time0 int64, steps []any) string {
 			if err != nil {
 				return "mkupdate-failed " + err.Error()
 			}
+			if st.boolean("badevents") {
+				// a genuine signed accumulator with an altered event list (one value changed)
+				k := st.int("badk") % len(u.Events)
+				evs := make([]*revocation.Event, len(u.Events))
+				for i, e := range u.Events {
+					c := *e
+					evs[i] = &c
+				}
+				evs[k].E = new(big.Int).Add(evs[k].E, bi(2))
+				u.Events = evs
+			}
 			// as received by a client: decoded accumulator not yet cached
 			u.SignedAccumulator = &revocation.SignedAccumulator{Data: u.SignedAccumulator.Data, PKCounter: u.SignedAccumulator.PKCounter}
 			h.updates[st.str("u")] = u
@@ -103,9 +115,16 @@ func runHistoryGo(kp *KeyPair, nu0 *big.Int, time0 int64, steps []any) string {
 				if err := json.Unmarshal(bts, list); err != nil {
 					panic(err)
 				}
-			case "flatten":
+			case "flatten", "flatten-reused":
+				// "flatten-reused": the decoded chunk objects are kept and flattened again for the next
+				// update (a client caching the chunks it downloaded)
 				var parts []*revocation.EventList
 				for _, e := range evs {
+					key := fmt.Sprintf("%d", e.Index)
+					if p, ok := h.chunks[key]; ok && st.str("wire") == "flatten-reused" {
+						parts = append(parts, p)
+						continue
+					}
 					bts, err := json.Marshal(revocation.NewEventList(e))
 					if err != nil {
 						panic(err)
@@ -114,6 +133,7 @@ func runHistoryGo(kp *KeyPair, nu0 *big.Int, time0 int64, steps []any) string {
 					if err := json.Unmarshal(bts, part); err != nil {
 						panic(err)
 					}
+					h.chunks[key] = part
 					parts = append(parts, part)
 				}
 				fl, err := revocation.FlattenEventLists(parts)
@@ -186,11 +206,12 @@ type histBuilder struct {
 	wit    map[string]*specWitness
 	upd    map[string][2]int
 	badupd map[string]bool
+	badev  map[string]bool
 	time   int64
 }
 
 func newHistBuilder() *histBuilder {
-	return &histBuilder{es: []string{"1"}, wit: map[string]*specWitness{}, upd: map[string][2]int{}, badupd: map[string]bool{}, time: 1000}
+	return &histBuilder{es: []string{"1"}, wit: map[string]*specWitness{}, upd: map[string][2]int{}, badupd: map[string]bool{}, badev: map[string]bool{}, time: 1000}
 }
 
 func (b *histBuilder) revoke(e *big.Int) {
@@ -223,6 +244,14 @@ func (b *histBuilder) prepend(u string, lo, hi int, wire string) {
 	b.upd[u] = [2]int{lo, win[1]}
 	b.expect = append(b.expect, fmt.Sprintf("prepend-ok:%d", lo))
 }
+// mkbadevents: update message from..to whose accumulator is genuine but one event value is altered:
+// every application must fail and leave the witness as it was
+func (b *histBuilder) mkbadevents(id string, from, to, k int) {
+	b.steps = append(b.steps, map[string]any{"t": "mkupdate", "u": id, "from": from, "to": to, "badevents": true, "badk": k})
+	b.upd[id] = [2]int{from, to}
+	b.badev[id] = true
+	b.expect = append(b.expect, "update-ok")
+}
 func (b *histBuilder) corrupt(w string) {
 	b.steps = append(b.steps, map[string]any{"t": "corruptw", "w": w})
 	b.wit[w].corrupt = true
@@ -240,6 +269,8 @@ func (b *histBuilder) apply(w, u string) {
 	from, to := win[0], win[1]
 	res := "ok"
 	switch {
+	case b.badev[u]:
+		res = "err" // the message itself does not verify, whatever the witness's position
 	case to <= sw.index:
 		// nothing newer: witness stays where it is
 	case from > sw.index+1:
@@ -309,7 +340,7 @@ func genC09(g *Rng, tier string, emit func(Op)) {
 		if tier == "thorough" {
 			n = 6
 		}
-		for _, wire := range []string{"", "json-product", "flatten"} {
+		for _, wire := range []string{"", "json-product", "flatten", "flatten-reused"} {
 			b := newHistBuilder()
 			nu0 := randomQR(g, kp.pk.N)
 			for i := 0; i <= n; i++ {
